@@ -114,6 +114,10 @@ func init() {
 			o.Classes = []gen.ConfigClass{all[c.Idx%2]}
 			o.MaxOps = 30
 			o.WSchedule, o.WFinish, o.WCancel, o.WFire, o.WStopRel, o.WRead = 45, 25, 16, 10, 3, 1
+			if c.Idx%8 == 7 {
+				// schedules: concurrent clients, FIFO judged offline from Created / Start of all jobs + linearizability
+				return linCase(c, "C06")
+			}
 			return histCase(c, o, 400)
 		},
 		MinDistinct: 4,
@@ -339,6 +343,11 @@ func init() {
 			o.Pipe.CyclicProb = 0
 			o.Pipe.MaxTasks = 4
 			o.WSchedule, o.WFinish, o.WCancel, o.WFire, o.WStopRel, o.WRead, o.WReload = 32, 30, 6, 10, 2, 1, 12
+			if c.Idx%10 == 9 {
+				// schedules: reloads racing schedule requests; every job must be built from a definition that was in force
+				// while its request was in flight
+				return stressCase(c, drv.StressOpts{Schedulers: 3, Cancelers: 1, Readers: 1, Reloader: true, OpsPerClient: 60, FailProb: 0.05, MaxPauseUs: 100}, "C16")
+			}
 			return histCase(c, o, 300)
 		},
 		MinDistinct: 30,
